@@ -1,16 +1,21 @@
 use std::fmt;
 use std::slice;
 use std::str;
-#[cfg(not(sourcemap_verif = "loom"))]
+#[cfg(not(any(sourcemap_verif = "loom", sourcemap_verif = "shuttle")))]
 use std::sync::atomic::AtomicUsize;
-#[cfg(not(sourcemap_verif = "loom"))]
+#[cfg(not(any(sourcemap_verif = "loom", sourcemap_verif = "shuttle")))]
 use std::sync::atomic::Ordering;
 use std::sync::Arc;
-#[cfg(not(sourcemap_verif = "loom"))]
+#[cfg(not(any(sourcemap_verif = "loom", sourcemap_verif = "shuttle")))]
 use std::sync::Mutex;
 
 #[cfg(sourcemap_verif = "loom")]
 use loom::sync::{
+    atomic::{AtomicUsize, Ordering},
+    Mutex,
+};
+#[cfg(sourcemap_verif = "shuttle")]
+use shuttle::sync::{
     atomic::{AtomicUsize, Ordering},
     Mutex,
 };
